@@ -519,10 +519,17 @@ def runtime_agreement(ctx: Ctx, rng: random.Random, cases: list, first_tid: int)
                 (ctx.scratch / f"rhs_states_{q}.txt").write_text("\n".join(" ".join(repr(x) for x in v) for v in sts) + "\n")
             pr = subprocess.run([str(exe), str(ctx.scratch / f"rhs_states_{q}.txt")], capture_output=True, text=True, timeout=300)
             if pr.returncode != 0:
+                if "SHIM:" in pr.stderr:      # the stand-in's bounds check stopped the generated code: a finding, not a machinery failure
+                    outs["aborted"] = f"{solver}: {pr.stderr.strip()[-200:]}"
+                    break
                 raise MachineryError(f"rhs driver failed ({solver}): {pr.stderr[-300:]}")
             rows = [json.loads(re.sub(r"-?\b(?:nan|inf)\b", "null", ln)) for ln in pr.stdout.splitlines() if ln.startswith("{")]
             outs[solver] = rows
         if not outs:
+            continue
+        if outs.get("aborted"):
+            out.append({"tid": first_tid + len(out), "net": tr_net, "be": "runtime", "weights": [], "names": names, "mode": "runtime",
+                        "ev": [{"k": "Runtime", "ydot_same": False, "jac_same": False}], "detail": outs["aborted"]})
             continue
 
         def same(a, b):
@@ -564,6 +571,9 @@ def main(ctx: Ctx) -> int:
         {"reactions": [(["Si", "O"], ["SiO"]), (["S+", "e-"], ["S"]), (["SiO", "S+"], ["SO+", "Si"]), (["Si+", "S"], ["Si", "S+"])], "required": [],
          "origin": "random"},
         {"reactions": [(["S+", "SiH"], ["HS+", "Si"]), (["Si+", "e-"], ["Si"]), (["S", "Si+"], ["S+", "Si"])], "required": ["SO"], "origin": "random"},
+        # a user-declared pseudo-reactant (not one of the built-in names)
+        {"reactions": [(["H", "XR"], ["H+", "e-"]), (["H+", "e-"], ["H"]), (["He", "XR"], ["He+", "e-"]), (["He+", "e-", "UV"], ["He"])], "required": [],
+         "pseudo_elements": PSEUDO + ["XR", "UV"], "pseudo_prefixes": True, "origin": "random"},
         # an element represented by a species that is not spelled like it (the less connected O* precedes O in the species order)
         {"reactions": [(["O*", "H2"], ["OH", "H"]), (["O", "H2"], ["OH", "H"]), (["OH", "H"], ["O", "H2"]), (["O", "H"], ["OH"]), (["CO", "He+"], ["C+", "O", "He"])],
          "required": [], "origin": "random"},
